@@ -1,19 +1,20 @@
 #!/bin/sh
-# usage: tools/seed_batch.sh [all]   - evaluates every /tmp/sa/Cxx/mutant_i.diff not yet filed under /verif/seeded
-mode="$1"
+# usage: tools/seed_batch.sh <srcdir> <tag> [all|force]
+#   evaluates every <srcdir>/Cxx/mutant_i.diff and files it as /verif/seeded/Cxx-<tag>i (skips those already filed unless "force"/"all")
+src="${1:-/tmp/sa}"; tag="${2:-m}"; mode="$3"
 rel() { case "$1" in
- C01) echo C01,C04,C06,C14;; C02) echo C02,C03,C04;; C03) echo C03,C02,C07,C19;; C04) echo C04,C01,C02,C20;; C05) echo C05,C06,C14;;
+ C01) echo C01,C04,C06,C14;; C02) echo C02,C03,C04,C14;; C03) echo C03,C02,C07,C19;; C04) echo C04,C01,C02,C20;; C05) echo C05,C06,C14;;
  C06) echo C06,C05,C01;; C07) echo C07,C08,C09,C10;; C08) echo C08,C07,C09,C10;; C09) echo C09,C07,C08,C10;; C10) echo C10,C07,C08,C09;;
- C11) echo C11,C13;; C12) echo C12,C13;; C13) echo C13,C01,C04,C14;; C14) echo C14,C01,C05;; C15) echo C15,C16;; C16) echo C16,C15,C07;;
- C17) echo C17,C13,C14;; C18) echo C18,C13,C14;; C19) echo C19,C03,C14;; C20) echo C20,C04,C13;; esac; }
-for d in /tmp/sa/C??; do
+ C11) echo C11,C13;; C12) echo C12,C13;; C13) echo C13,C01,C04,C11;; C14) echo C14,C01,C05,C07;; C15) echo C15,C16;; C16) echo C16,C15,C07;;
+ C17) echo C17,C13,C14;; C18) echo C18,C13,C14;; C19) echo C19,C03,C14;; C20) echo C20,C04,C13,C14;; esac; }
+for d in $src/C??; do
   id=$(basename $d)
   for i in 1 2; do
     [ -f $d/mutant_$i.diff ] || continue
-    name="${id}-m$i"
-    [ -f /verif/seeded/$name/meta.json ] && [ "$mode" != "all" ] && continue
-    sed 's#/tmp/sa/rpy2stub#/verif/stubs#g' $d/demo_$i.py > /tmp/sa/_demo_$name.py
+    name="${id}-${tag}$i"
+    [ -f /verif/seeded/$name/meta.json ] && [ -z "$mode" ] && continue
+    sed 's#/tmp/sa/rpy2stub#/verif/stubs#g' $d/demo_$i.py > /tmp/_demo_$name.py
     checks=$(rel $id); [ "$mode" = "all" ] && checks=all
-    /verif/tools/seed_eval.py $name $id $d/mutant_$i.diff /tmp/sa/_demo_$name.py $d/note_$i.txt --checks=$checks
+    /verif/tools/seed_eval.py $name $id $d/mutant_$i.diff /tmp/_demo_$name.py $d/note_$i.txt --checks=$checks
   done
 done
